@@ -313,6 +313,13 @@ deriving DecidableEq, Repr
 inductive WireErr | shortRead | tooLarge | decode | trailing
 deriving DecidableEq, Repr
 
+/-- `check_message_length(len)` of msgs.rs, the first step of `from_reader` (hence of `from_vec` and `read`) and of
+    `read_message::<T>`: `len < 2` → `ShortRead`, `len > MAX_MESSAGE_SIZE` → `MessageTooLarge`.  The body of the Rust
+    function is regenerated by rs2lean (`Gen/FnMsgs.lean`) and proved equal to this definition in
+    `Props/C19Fn.lean`; `fromVec`, `readFrame` and `readMessageTyped` below are proved there to start with it. -/
+def checkMessageLength (maxMsg n : Nat) : Except WireErr Unit :=
+  if n < 2 then .error .shortRead else if n > maxMsg then .error .tooLarge else .ok ()
+
 /-- `SerBolt::as_vec` of the struct at entry `e` -/
 def asVec {α : Type} (L : LeafCodec α) (e : Entry) (v : Val α) : Bytes :=
   beBytes 2 e.id ++ enc L e.ty v
@@ -446,6 +453,61 @@ def readSerialResponse (bs : Bytes) (expected : Nat) : Bool :=
     match splitAt? 2 r with
     | none => false
     | some (s, _) => beVal s == expected
+
+/-! ### the header code as step lists (tie to the source)
+
+`translate/x_wireframe.py` reads the four serial-header functions of msgs.rs statement by statement and emits them
+as lists of `HStep` (`Gen/WireFrame.lean`).  `hWrite` / `hRead` interpret such a list; `Props/C19.lean`
+(`C19_gen_serial_request`, `C19_gen_serial_response`) proves that the hand-written functions above *are* the
+interpretation of the generated lists, so a changed magic, width, field order or a dropped comparison in the source
+reaches a proof obligation. -/
+
+inductive HStep
+  /-- write: `write_all(&0x….to_be_bytes())` of a `u16` literal; read: `read_u16_be()` compared with the literal,
+      `BadFraming` if different -/
+  | magic (v : Nat)
+  /-- an integer field of `width` bytes, big endian (`to_be_bytes()` / `read_u{8·width}_be()`) -/
+  | be (width : Nat)
+  /-- a byte array field `[u8; len]` (`write_all(&arr)` / `read_exact(&mut [0u8; len])`) -/
+  | raw (len : Nat)
+  /-- read only: an integer of `width` bytes compared with the caller's expected value, `BadFraming` if different -/
+  | expect (width : Nat)
+deriving DecidableEq, Repr
+
+inductive HVal
+  | n (v : Nat)
+  | b (bs : Bytes)
+deriving DecidableEq, Repr
+
+/-- a header writer: the values of the non-magic steps in order; `none` if the values do not fit the steps
+    (cannot happen in Rust: the struct type fixes kinds and array lengths) -/
+def hWrite : List HStep → List HVal → Option Bytes
+  | [], [] => some []
+  | .magic v :: ss, vs => (hWrite ss vs).map (beBytes 2 v ++ ·)
+  | .be w :: ss, .n v :: vs => (hWrite ss vs).map (beBytes w v ++ ·)
+  | .raw l :: ss, .b bs :: vs => if bs.length = l then (hWrite ss vs).map (bs ++ ·) else none
+  | _, _ => none
+
+/-- a header reader: the values read (magic and expected fields are checked, not returned) and the rest of the
+    stream; `none` = an error (`BadFraming`, or the stream ends inside the header) -/
+def hRead : List HStep → Nat → Bytes → Option (List HVal × Bytes)
+  | [], _, bs => some ([], bs)
+  | .magic v :: ss, e, bs =>
+    match splitAt? 2 bs with
+    | none => none
+    | some (m, r) => if beVal m ≠ v then none else hRead ss e r
+  | .be w :: ss, e, bs =>
+    match splitAt? w bs with
+    | none => none
+    | some (x, r) => (hRead ss e r).map (fun p => (.n (beVal x) :: p.1, p.2))
+  | .raw l :: ss, e, bs =>
+    match splitAt? l bs with
+    | none => none
+    | some (x, r) => (hRead ss e r).map (fun p => (.b x :: p.1, p.2))
+  | .expect w :: ss, e, bs =>
+    match splitAt? w bs with
+    | none => none
+    | some (x, r) => if beVal x ≠ e then none else hRead ss e r
 
 /-! ### StreamedPSBT (structured model of `vls-protocol/src/psbt.rs`)
 
